@@ -14,8 +14,10 @@ EXPLANATION = (
     "or a callee that dereferences its parameter unguarded (inter-procedural parameter summaries, fixpoint), and that no "
     "resolver raise is reachable under relax=True; R3 '..' above the root raises RootResolverError, a missing child "
     "ChildResolverError, root-component errors plain ResolverError, and get/glob agree; R4 every callee on the path is "
-    "resolved and in a reasoned harmless set, indexed reads are dominated by non-emptiness guards. Not decided: which node "
-    "a path denotes (string computation on runtime names)."
+    "resolved and in a reasoned harmless set, indexed reads are dominated by non-emptiness guards; R9 in the walk loop the "
+    "step to the parent is taken exactly for '..', the child lookup exactly for components other than '..', '' and '.', "
+    "nothing else replaces the current node, and every path of such a component performs its step before the next "
+    "component is taken. Not decided: which child a name selects (string computation on runtime names)."
 )
 ASSUMPTIONS = [
     "self.relax is constant during a call (checked: assigned only in __init__)",
@@ -35,6 +37,8 @@ def run(ctx):
     R.rule_R6_string_compare(ctx, typer, funcs)
     R.rule_R7_parts_unmodified(ctx, typer)
     R.rule_R8_split_unfiltered(ctx, typer)
+    R.rule_R9_component_dispatch(ctx, typer, "get")
+    ctx.floor("R9", 4)
     R.rule_G2_all_caches(ctx, typer)
     ctx.floor("R6", 2)
     ctx.floor("R1", 2)
